@@ -2,6 +2,7 @@ SPECIFICATION Spec
 CONSTANTS
   T = 2
   MaxRows = 60
+  Variants = {0, 1, 2}
 INVARIANT RowValid
 INVARIANT BoundNotReached
 PROPERTY Progress
